@@ -150,7 +150,19 @@ theorem C11_disconnect_flush_fail_latches (fuel : Nat) (w : World) (d : Disconne
     (now : Nat) (e : Err) (hp : prepareStep w step = .fail e) :
     (performStep (fuel + 1) w (.flush (.discPre d)) step now).live = false ∧
     (performStep (fuel + 1) w (.flush (.discPre d)) step now).lastRes = some (.error e) := by
-  simp [performStep, hp]
+  cases step <;> simp [performStep, hp]
+
+/-- **A queued acknowledgement or PUBREL that this connection cannot carry closes it**, whoever is
+flushing (F14b, repaired in the crate: `perform_outbound_step` calls `handle_disconnect()` before it
+returns the error): the packet was queued under an earlier, larger Maximum Packet Size, the size check
+at send time fails, the call reports the error and the handle is dead. (A retained packet in the same
+situation is finding F14: the call fails and the handle stays as it was.) -/
+theorem C11_unsendable_ack_closes (fuel : Nat) (w : World) (ctx : StepCtx) (step : Outbound.Step)
+    (now : Nat) (e : Err) (hp : prepareStep w step = .fail e)
+    (hstep : (∃ a st, step = .control a st) ∨ (∃ id rc st, step = .release id rc st)) :
+    (performStep (fuel + 1) w ctx step now).live = false ∧
+    (performStep (fuel + 1) w ctx step now).lastRes = some (.error e) := by
+  rcases hstep with ⟨a, st, rfl⟩ | ⟨id, rc, st, rfl⟩ <;> simp [performStep, hp]
 
 theorem C11_disconnect_pingreq_fail_latches (fuel : Nat) (w : World) (d : Disconnect) (e : Err)
     (hq : w.maybeQueuePingreq w.now = .error e) :
